@@ -356,12 +356,23 @@ def entInsert (e : UID × EntityData) : Entities → Entities
   | [] => [e]
   | x :: xs => if x.1 == e.1 then e :: xs else x :: entInsert e xs
 
-/-- `EntityMap.UnmarshalJSON` -/
+/-- one turn of the loop of `EntityMap.UnmarshalJSON`:
+    `if _, ok := res[e.UID]; ok { return fmt.Errorf("duplicate entity …") }; res[e.UID] = e` -/
+def entAdd (acc : Entities) (e : UID × EntityData) : R Entities :=
+  if (Entities.get acc e.1).isSome then .error .reject else .ok (entInsert e acc)
+
+/-- the loop of `EntityMap.UnmarshalJSON` over the decoded `[]Entity`, starting from the map built so far -/
+def entAddAll : Entities → List (UID × EntityData) → R Entities
+  | acc, [] => .ok acc
+  | acc, e :: es => do entAddAll (← entAdd acc e) es
+
+/-- `EntityMap.UnmarshalJSON`: the whole array is decoded first (`json.Unmarshal(b, &s)`), then the entities are entered
+    one by one; the second entry of a UID is an error (no entry is ever replaced) -/
 def decodeEntities : J → R Entities
   | .null => .ok []
   | .arr xs => do
     let es ← mapMR decodeEntity xs
-    .ok (es.foldl (fun acc e => entInsert e acc) [])
+    entAddAll [] es
   | _ => .error .reject
 
 structure RequestM where
